@@ -1,5 +1,7 @@
 import NurbsVerif.Lemmas.Exchange
 import NurbsVerif.Lemmas.ExchangeEval
+import NurbsVerif.Lemmas.ExchangeAssemble
+import NurbsVerif.Lemmas.ExchangeAssembleFile2d
 import Mathlib.Algebra.Order.Field.Rat
 import Mathlib.Tactic.NormNum
 
@@ -135,6 +137,42 @@ theorem flip2d_repaired_on_witness :
     flip2dFile file23 = some ((List.range 3).map (fun v => (List.range 2).map (fun u => [10 * (u : Int) + v, 0, 0, 1]))) := by
   decide +kernel
 
+/-! ### ... on every rectangular file
+
+`file2Of g` is the text of the 2-D control point file holding the array `g` (`g[u][v]` = point `v` of line `u`);
+`Rect2d g su sv`: `su` lines of `sv` points. -/
+
+/-- **repaired `flip_ctrlpts2d_file`, all sizes**: for every file of `size_u ≥ 1` lines of `size_v ≥ 1` points the
+    output is the transposed file: `size_v` lines of `size_u` points, and the point at line `v`, position `u` is the input
+    point at line `u`, position `v`. -/
+theorem flip2d_repaired_all_sizes (g : List (List (List K))) (su sv : ℕ) (h : Rect2d g su sv) (hu : 0 < su) (hv : 0 < sv) :
+    flip2dFile (file2Of g) = some (flipCtrlpts2d g su sv) ∧ Rect2d (flipCtrlpts2d g su sv) sv su ∧
+    ∀ u v, u < su → v < sv → ((flipCtrlpts2d g su sv).getD v []).getD u [] = (g.getD u []).getD v [] :=
+  ⟨flip2dFile_rect g su sv h hu hv, flipCtrlpts2d_rect g su sv, fun u v => flipCtrlpts2d_getD g su sv u v⟩
+
+/-- flipping twice returns the file -/
+theorem flip2d_repaired_involutive (g : List (List (List K))) (su sv : ℕ) (h : Rect2d g su sv) (hu : 0 < su) (hv : 0 < sv) :
+    (flip2dFile (file2Of g)).bind (fun g' => flip2dFile (file2Of g')) = some g :=
+  flip2d_twice g su sv h hu hv
+
+/-- **`generate_ctrlptsw2d_file` / `generate_ctrlpts2d_weights_file` (repaired saver), all sizes**: the layout (lines and
+    positions) is kept and every point is converted `(x,y,z,w) ↦ (xw,yw,zw,w)` resp. back; with non-zero weights the
+    second undoes the first. -/
+theorem weight2d_repaired_all_sizes (g : List (List (List K))) (su sv : ℕ) (h : Rect2d g su sv) (hu : 0 < su) (hv : 0 < sv) :
+    weight2dFile (file2Of g) = some (g.map (·.map weightPt)) ∧
+    unweight2dFile (file2Of g) = some (g.map (·.map unweightPt)) ∧
+    ((∀ r ∈ g, WeightsOk r) → (weight2dFile (file2Of g)).bind (fun g' => unweight2dFile (file2Of g')) = some g) :=
+  ⟨weight2dFile_rect g su sv h hu hv, unweight2dFile_rect g su sv h hu hv, unweight_weight2d g su sv h hu hv⟩
+
+/-- **F-14b, all sizes**: the PINNED `flip_ctrlpts2d_file` raises on EVERY non-square rectangular file. -/
+theorem flip2d_pinned_refutes_all_nonsquare (g : List (List (List K))) (su sv : ℕ) (h : Rect2d g su sv)
+    (hu : 0 < su) (hv : 0 < sv) (hne : su ≠ sv) : flip2dFilePinned (file2Of g) = none :=
+  flip2dFilePinned_nonsquare g su sv h hu hv hne
+
+/-- non-vacuity: a 2 x 3 array over ℚ -/
+example : Rect2d ([[[0, 0, 0, 1], [0, 1, 0, 2], [0, 2, 0, 3]], [[1, 0, 0, 1], [1, 1, 0, 1/2], [1, 2, 0, 1]]] : List (List (List ℚ))) 2 3 :=
+  ⟨rfl, by decide⟩
+
 /-! ## the dict form behind JSON / YAML / libconfig -/
 
 /-- JSON: `import_json (export_json x)` is `x` in rational form with normalised knot vectors, the sampling
@@ -205,6 +243,122 @@ theorem volume_point_after_import (pu pv pw : ℕ) (Uu Uv Uw : ℕ → K) (su sv
       = volumePointAt pu pv pw Uu Uv Uw su sv P ku kv kw u v w :=
   volumePointAt_normalised pu pv pw Uu Uv Uw su sv P ku kv kw u v w a b c d e f hab hcd hef
 
+/-! ## ... END-TO-END: `evaluate_single` of the reimported shape
+
+`Crv.point` / `Srf.point` / `Vol.point` (`Lemmas/ExchangeAssemble.lean`) are what `evaluate_single` runs on a shape
+record: the library's span search (`findSpanLinear`) in every direction, A3.1 / A3.5 / the volume evaluation on the
+stored net (`Geomdl.curvePoint`, `surfacePoint`, `volumePoint`), and the division by the weight (`project`) iff the
+shape is rational.  `normParam U u = (u - U_first)/(U_last - U_first)` is the parameter of the reimported shape that
+corresponds to `u`; `InDomain p U n u` says `U_p ≤ u ≤ U_n`.  `EvalOk d` = the setters' guard `kvOk` per direction,
+a non-empty last span of the domain per direction, net of the right size, all stored points of one length `d`. -/
+section endToEnd
+variable [IsStrictOrderedRing K]
+
+/-- **curves, rational or not**: the shape every reader returns for an exported curve (`asRational`: homogeneous net
+    - unit weights if the input was not rational -, knot vector normalised) evaluates at the normalised parameter to
+    the point of the exported curve at `u`, for EVERY `u` of the closed domain (span search included). -/
+theorem curve_reimport_same_point (c : Crv K) (d : ℕ) (h : c.EvalOk d) (u : K)
+    (hu : InDomain c.degree c.knots c.net.length u) :
+    c.asRational.point (normParam c.knots u) = c.point u :=
+  Crv.asRational_point c d h u hu
+
+/-- **surfaces, rational or not** (each direction normalised on its own range) -/
+theorem surface_reimport_same_point (s : Srf K) (d : ℕ) (h : s.EvalOk d) (u v : K)
+    (hu : InDomain s.degU s.knotsU s.sizeU u) (hv : InDomain s.degV s.knotsV s.sizeV v) :
+    s.asRational.point (normParam s.knotsU u) (normParam s.knotsV v) = s.point u v :=
+  Srf.asRational_point s d h u v hu hv
+
+/-- **volumes, rational or not** -/
+theorem volume_reimport_same_point (x : Vol K) (d : ℕ) (h : x.EvalOk d) (u v w : K)
+    (hu : InDomain x.degU x.knotsU x.sizeU u) (hv : InDomain x.degV x.knotsV x.sizeV v)
+    (hw : InDomain x.degW x.knotsW x.sizeW w) :
+    x.asRational.point (normParam x.knotsU u) (normParam x.knotsV v) (normParam x.knotsW w) = x.point u v w :=
+  Vol.asRational_point x d h u v w hu hv hw
+
+/-- the parameters correspond one to one: `normParam` maps the exported domain into the reimported one, and every
+    parameter `t` of the reimported domain is `normParam` of the exported parameter `U_first + t (U_last - U_first)` -
+    so the three theorems above speak about every point of the reimported shape, too. -/
+theorem reimport_parameter_correspondence (p : ℕ) (U : List K) (n : ℕ) (h : kvOk p U n = true)
+    (hlast : fnOf U (n - 1) < fnOf U n) :
+    (∀ u, InDomain p U n u → InDomain p (knotNormalize U) n (normParam U u)) ∧
+    (∀ t, InDomain p (knotNormalize U) n t →
+      InDomain p U n (U.headD 0 + t * (U.getLastD 0 - U.headD 0)) ∧
+        normParam U (U.headD 0 + t * (U.getLastD 0 - U.headD 0)) = t) := by
+  obtain ⟨_, hne, hr⟩ := kvWF_of_kvOk p U n h hlast
+  exact ⟨fun u hu => normParam_inDomain p U n u hne hr hu, fun t ht => normParam_surj p U n t hne hr ht⟩
+
+/-- **smesh, export → import → evaluate**: reading the file `export_smesh` wrote and evaluating the result at the
+    normalised parameters gives the point of the exported surface, every `(u, v)` of the domain. -/
+theorem smesh_export_import_same_point (s : Srf K) (d : ℕ) (h : s.EvalOk d)
+    (hw : s.rational = true → WeightsOk s.net) (hd : dimOf s.rational s.net = 3) (u v : K)
+    (hu : InDomain s.degU s.knotsU s.sizeU u) (hv : InDomain s.degV s.knotsV s.sizeV v) :
+    (smeshRead (smeshWrite s)).map (fun s' => s'.point (normParam s.knotsU u) (normParam s.knotsV v))
+      = some (s.point u v) := by
+  rw [smesh_roundtrip s h.len hw hd h.kvU h.kvV, Option.map_some, Srf.asRational_point s d h u v hu hv]
+
+/-- **vmesh (repaired reader), export → import → evaluate** -/
+theorem vmesh_export_import_same_point (x : Vol K) (d : ℕ) (h : x.EvalOk d)
+    (hw : x.rational = true → WeightsOk x.net) (hd : dimOf x.rational x.net = 3) (u v w : K)
+    (hu : InDomain x.degU x.knotsU x.sizeU u) (hv : InDomain x.degV x.knotsV x.sizeV v)
+    (hww : InDomain x.degW x.knotsW x.sizeW w) :
+    (vmeshRead (vmeshWrite x)).map
+        (fun x' => x'.point (normParam x.knotsU u) (normParam x.knotsV v) (normParam x.knotsW w))
+      = some (x.point u v w) := by
+  rw [vmesh_roundtrip x h.len hw hd h.kvU h.kvV h.kvW, Option.map_some, Vol.asRational_point x d h u v w hu hv hww]
+
+/-- **containers of surfaces, one smesh file per element**: the surfaces read back correspond to the exported ones
+    in container order, and each evaluates to the same points (`Srf.SamePoints s' s`: for every `(u, v)` of the
+    domain of `s`, `s'` at the normalised parameters = `s` at `(u, v)`). -/
+theorem smesh_container_same_points (l : List (Srf K)) (d : ℕ)
+    (h : ∀ s ∈ l, s.EvalOk d ∧ (s.rational = true → WeightsOk s.net) ∧ dimOf s.rational s.net = 3) :
+    ∃ l', smeshReadAll (smeshWriteAll l) = some l' ∧ List.Forall₂ Srf.SamePoints l' l :=
+  ⟨l.map Srf.asRational,
+   readAll_of l smeshWrite smeshRead Srf.asRational
+     (fun s hs => smesh_roundtrip s (h s hs).1.len (h s hs).2.1 (h s hs).2.2 (h s hs).1.kvU (h s hs).1.kvV),
+   forall₂_map_of l _ _ (fun s hs u v hu hv => Srf.asRational_point s d (h s hs).1 u v hu hv)⟩
+
+/-- **containers of volumes, one vmesh file per element** -/
+theorem vmesh_container_same_points (l : List (Vol K)) (d : ℕ)
+    (h : ∀ x ∈ l, x.EvalOk d ∧ (x.rational = true → WeightsOk x.net) ∧ dimOf x.rational x.net = 3) :
+    ∃ l', vmeshReadAll (vmeshWriteAll l) = some l' ∧ List.Forall₂ Vol.SamePoints l' l :=
+  ⟨l.map Vol.asRational,
+   readAll_of l vmeshWrite vmeshRead Vol.asRational
+     (fun x hx => vmesh_roundtrip x (h x hx).1.len (h x hx).2.1 (h x hx).2.2 (h x hx).1.kvU (h x hx).1.kvV (h x hx).1.kvW),
+   forall₂_map_of l _ _ (fun x hx u v w hu hv hw => Vol.asRational_point x d (h x hx).1 u v w hu hv hw)⟩
+
+/-- **JSON / YAML / cfg (dict form), curves and containers of curves**: the imported shapes correspond to the exported
+    ones in container order and each evaluates to the same points. -/
+theorem json_export_import_same_points_curves (ov : Option K) (l : List (CrvX K)) (d : ℕ)
+    (h : Shapes.Ok (.curves l)) (he : ∀ c ∈ l, c.g.EvalOk d) :
+    ∃ l', importShapes ov (exportShapes (.curves l)) = .curves l' ∧
+      List.Forall₂ (fun c' c => Crv.SamePoints c'.g c.g) l' l :=
+  ⟨l.map (CrvX.asRational ov), dict_shapes ov (.curves l) h,
+   forall₂_map_of l _ _ (fun c hc u hu => Crv.asRational_point c.g d (he c hc) u hu)⟩
+
+/-- **dict form, surfaces** (the trims travel with the surface, `json_export_import`; the statement here is about
+    the surface points) -/
+theorem json_export_import_same_points_surfaces (ov : Option K) (l : List (SrfX K)) (d : ℕ)
+    (h : Shapes.Ok (.surfaces l)) (he : ∀ s ∈ l, s.g.EvalOk d) :
+    ∃ l', importShapes ov (exportShapes (.surfaces l)) = .surfaces l' ∧
+      List.Forall₂ (fun s' s => Srf.SamePoints s'.g s.g) l' l :=
+  ⟨l.map (SrfX.asRational ov), dict_shapes ov (.surfaces l) h,
+   forall₂_map_of l _ _ (fun s hs u v hu hv => Srf.asRational_point s.g d (he s hs) u v hu hv)⟩
+
+/-- **dict form, volumes** -/
+theorem json_export_import_same_points_volumes (ov : Option K) (l : List (VolX K)) (d : ℕ)
+    (h : Shapes.Ok (.volumes l)) (he : ∀ x ∈ l, x.g.EvalOk d) :
+    ∃ l', importShapes ov (exportShapes (.volumes l)) = .volumes l' ∧
+      List.Forall₂ (fun x' x => Vol.SamePoints x'.g x.g) l' l :=
+  ⟨l.map (VolX.asRational ov), dict_shapes ov (.volumes l) h,
+   forall₂_map_of l _ _ (fun x hx u v w hu hv hw => Vol.asRational_point x.g d (he x hx) u v w hu hv hw)⟩
+
+/-- a spline trim curve of a surface comes back (without the `delta` override) as a curve with the same points -/
+theorem json_trim_curve_same_points (c : CrvX K) (d : ℕ) (h : Trim.Ok (.spline c)) (he : c.g.EvalOk d) :
+    ∃ c', importTrim (exportTrim (.spline c)) = .spline c' ∧ Crv.SamePoints c'.g c.g :=
+  ⟨c.asRational none, dict_trim (.spline c) h, fun u hu => Crv.asRational_point c.g d he u hu⟩
+
+end endToEnd
+
 /-! ## non-vacuity: a concrete 2 x 3 rational surface satisfies every hypothesis of `smesh_export_import` -/
 def srfWitness : Srf ℚ :=
   { rational := true, degU := 1, degV := 2, sizeU := 2, sizeV := 3,
@@ -218,5 +372,33 @@ example : srfWitness.net.length = srfWitness.sizeU * srfWitness.sizeV ∧ (srfWi
   intro _ p hp
   simp only [srfWitness, List.mem_cons, List.not_mem_nil, or_false] at hp
   rcases hp with rfl | rfl | rfl | rfl | rfl | rfl <;> exact ⟨by simp, by norm_num [List.getLastD]⟩
+
+/-! non-vacuity of the end-to-end statements: a NON-rational 2 x 4 surface on the knot ranges `[2, 5]` and `[-1, 3]`
+(so both the unit weights and the normalisation matter), and the rational witness above -/
+def srfPlain : Srf ℚ :=
+  { rational := false, degU := 1, degV := 2, sizeU := 2, sizeV := 4,
+    knotsU := [2, 2, 5, 5], knotsV := [-1, -1, -1, 1, 3, 3, 3],
+    net := [[0, 0, 0], [0, 1, 0], [0, 2, 0], [0, 3, 1], [1, 0, 0], [1, 1, 1/3], [1, 2, 2/3], [1, 3, 5]] }
+
+theorem srfPlain_evalOk : srfPlain.EvalOk 3 :=
+  ⟨rfl, by decide +kernel, by decide +kernel, by decide +kernel, by decide +kernel, by unfold Geomdl.NetOk; decide⟩
+
+theorem srfWitness_evalOk : srfWitness.EvalOk 4 :=
+  ⟨rfl, by decide +kernel, by decide +kernel, by decide +kernel, by decide +kernel, by unfold Geomdl.NetOk; decide⟩
+
+/-- the parameter `(3, 2)` of the exported surface is `(1/3, 3/4)` on the reimported one; the common point -/
+example : (smeshRead (smeshWrite srfPlain)).map (fun s' => s'.point (normParam [2, 2, 5, 5] 3) (normParam [-1, -1, -1, 1, 3, 3, 3] 2))
+    = some (srfPlain.point 3 2) :=
+  smesh_export_import_same_point srfPlain 3 srfPlain_evalOk (fun h => absurd h (by decide)) rfl 3 2
+    ⟨by decide +kernel, by decide +kernel⟩ ⟨by decide +kernel, by decide +kernel⟩
+
+example : normParam ([2, 2, 5, 5] : List ℚ) 3 = 1/3 ∧ normParam ([-1, -1, -1, 1, 3, 3, 3] : List ℚ) 2 = 3/4 ∧
+    srfPlain.point 3 2 = [1/3, 17/8, 53/72] := by decide +kernel
+
+/-- the right end of both directions (the last span, closed on the right) -/
+example : (smeshRead (smeshWrite srfPlain)).map (fun s' => s'.point (normParam [2, 2, 5, 5] 5) (normParam [-1, -1, -1, 1, 3, 3, 3] 3))
+    = some (srfPlain.point 5 3) :=
+  smesh_export_import_same_point srfPlain 3 srfPlain_evalOk (fun h => absurd h (by decide)) rfl 5 3
+    ⟨by decide +kernel, by decide +kernel⟩ ⟨by decide +kernel, by decide +kernel⟩
 
 end C14
